@@ -1653,6 +1653,69 @@ static void scn_xjoin_impl(int stacked)
     }
 }
 
+/* ======================================================================= join request, then scheduler replacement (C17, C06)
+ * The primary ULT asks a secondary stream to join; only then a ULT of that stream replaces the
+ * stream's main scheduler (by a predefined one with new pools, or with the old pool).  The join
+ * request must survive the replacement: the stream terminates once the ULT has finished. */
+static void rj_body(void *a)
+{
+    (void)a;
+    int rank = -1;
+    ABT_xstream_self_rank(&rank);
+    EV("\"e\":\"Start\",\"u\":1,\"arg\":10,\"es\":%d,\"n\":1", rank);
+    while (!g_xj_go) {
+        EV("\"e\":\"Yield\",\"u\":1");
+        CHK(ABT_thread_yield());
+        EV("\"e\":\"Back\",\"u\":1");
+        abtv_idle_hint();
+    }
+    for (int k = rnd(4); k > 0; k--) {
+        EV("\"e\":\"Yield\",\"u\":1");
+        CHK(ABT_thread_yield());
+        EV("\"e\":\"Back\",\"u\":1");
+    }
+    ABT_xstream self;
+    CHK(ABT_xstream_self(&self));
+    static const ABT_sched_predef pre[3] = { ABT_SCHED_BASIC, ABT_SCHED_PRIO, ABT_SCHED_RANDWS };
+    if (rnd(2)) {
+        CHK(ABT_xstream_set_main_sched_basic(self, pre[rnd(3)], 1, NULL));
+        /* (the old, automatically created pool is gone with the old scheduler) */
+        CHK(ABT_xstream_get_main_pools(self, 1, &g_pool[1][0]));
+    } else {
+        ABT_pool mine;
+        CHK(ABT_self_get_last_pool(&mine));
+        CHK(ABT_xstream_set_main_sched_basic(self, pre[rnd(3)], 1, &mine));
+    }
+    EV("\"e\":\"Note\",\"what\":\"replaced\"");
+    for (int k = rnd(3); k > 0; k--) {
+        EV("\"e\":\"Yield\",\"u\":1");
+        CHK(ABT_thread_yield());
+        EV("\"e\":\"Back\",\"u\":1");
+    }
+    EV("\"e\":\"Finish\",\"u\":1");
+}
+static void scn_rejoin(void)
+{
+    ABT_thread t;
+    g_xj_go = 0;
+    EV("\"e\":\"Exec\",\"nu\":1,\"nes\":%d,\"cfg\":%d,\"ext\":0", g_nes, g_cfg);
+    EV("\"e\":\"Create\",\"by\":0,\"u\":1,\"kind\":0,\"named\":1,\"arg\":10,\"pool\":1");
+    CHK(ABT_thread_create(g_pool[1][0], rj_body, NULL, ABT_THREAD_ATTR_NULL, &t));
+    EV("\"e\":\"CreateRet\",\"by\":0,\"u\":1");
+    if (rnd(2))
+        while (state_of(t) == 0)
+            pause_any(0);
+    EV("\"e\":\"XJoinCall\",\"s\":1");
+    g_xj_go = 1;
+    CHK(ABT_xstream_join(g_xs[1]));
+    ABT_xstream_state xst;
+    CHK(ABT_xstream_get_state(g_xs[1], &xst));
+    EV("\"e\":\"XJoinRet\",\"s\":1,\"us\":[1],\"term\":%d", xst == ABT_XSTREAM_STATE_TERMINATED);
+    EV("\"e\":\"FreeCall\",\"by\":0,\"u\":1");
+    CHK(ABT_thread_free(&t));
+    EV("\"e\":\"FreeRet\",\"by\":0,\"u\":1,\"null\":%d,\"tok\":10", t == ABT_THREAD_NULL);
+}
+
 /* ======================================================================= private pool, two scheduler objects (C06)
  * A stream serves an entry pool (MPMC) and a PRIVATE pool; a second scheduler object over the
  * same pools exists but is never used.  A ULT of the stream creates a worker in the private pool;
@@ -2417,13 +2480,15 @@ static void scenario(const char *name, uint64_t seed)
     }
     setup_streams();
     if (!strcmp(name, "migrate") || !strcmp(name, "migrace") || !strcmp(name, "switch") || !strcmp(name, "xjoin") ||
-        !strcmp(name, "cancelnew") || !strcmp(name, "cancelmix") || !strcmp(name, "ryt") || !strcmp(name, "replace") || !strcmp(name, "ytrace") || !strcmp(name, "stacked") || !strcmp(name, "privjoin")) {
+        !strcmp(name, "cancelnew") || !strcmp(name, "cancelmix") || !strcmp(name, "ryt") || !strcmp(name, "replace") || !strcmp(name, "ytrace") || !strcmp(name, "stacked") || !strcmp(name, "privjoin") || !strcmp(name, "rejoin")) {
         if (!strcmp(name, "migrace"))
             scn_migrace();
         else if (!strcmp(name, "stacked"))
             scn_stacked();
         else if (!strcmp(name, "privjoin"))
             scn_privjoin();
+        else if (!strcmp(name, "rejoin"))
+            scn_rejoin();
         else if (!strcmp(name, "ytrace"))
             scn_ytrace();
         else if (!strcmp(name, "replace"))
@@ -2441,7 +2506,7 @@ static void scenario(const char *name, uint64_t seed)
         else
             scn_migrate();
         for (int e = 1; e < g_nes; e++) {
-            if (e == 1 && (!strcmp(name, "xjoin") || !strcmp(name, "stacked")))
+            if (e == 1 && (!strcmp(name, "xjoin") || !strcmp(name, "stacked") || !strcmp(name, "rejoin")))
                 continue;
             EV("\"e\":\"XJoinCall\",\"s\":%d", e);
             CHK(ABT_xstream_join(g_xs[e]));
